@@ -167,13 +167,14 @@ def l1_random(ctx, n_expr, dis):
     witnesses = []
     cases = []
     for k in range(n_expr):
-        sigs = make_sigs(rng, rng.randint(2, 4), maxw=rng.choice([3, 5, 9]))
-        g = ExprGen(rng, sigs, lowered=True, tame=(k % 3 == 0), neg_shift_ok=True)
+        wide = k % 12 == 11        # operands wider than 32 / 64 bits (decimal literals, masks)
+        sigs = make_sigs(rng, rng.randint(2, 4), maxw=rng.choice([33, 40, 65, 70]) if wide else rng.choice([3, 5, 9]))
+        g = ExprGen(rng, sigs, lowered=True, tame=(k % 3 == 0), neg_shift_ok=not wide, maxw=150 if wide else 24)
         e = g.gen(rng.randint(1, 3))
         used = used_signals(e)
         envs, exh = expr_envs(rng, sigs, used, max_exh_bits=8 if ctx.tier == "quick" else 11)
         stats["exhaustive"] += 1 if exh else 0
-        lw = rng.choice([1, 2, 4, 8, 9, 16, 24])
+        lw = rng.choice([33, 64, 72, 130]) if wide else rng.choice([1, 2, 4, 8, 9, 16, 24])
         cases.append(dict(e=e, sigs=sigs, lw=lw, envs=envs, exh=exh, tag="rand%d" % k))
         if len(cases) >= 50:
             check_expr_batch(ctx, cases, dis, stats, witnesses)
@@ -253,6 +254,8 @@ def run_module_case(lean, rng, name, build, cycles, dis, with_orig=True, fuel=64
         mt = L.parse_module(cap.text, name_ids)
         if mt.unsupported:
             raise L.Unsupported("; ".join(mt.unsupported[:3]))
+        if mt.blocking:
+            raise L.Unsupported("blocking assignment (variable signal): read by the independent reader only")
         items, decls = L.ser_vmodule(mt, name_ids)
     except L.Unsupported as ex:
         res.status = "unsupported: " + str(ex)[:120]
@@ -274,7 +277,7 @@ def run_module_case(lean, rng, name, build, cycles, dis, with_orig=True, fuel=64
     fA0 = None
     if with_orig:
         try:
-            from netlist import Netlist
+            from c01lib import Netlist
             fA, iosA, cdsA = build()
             fA0 = snapshot_stmts(fA)
             nl = Netlist(fA, clocks=tuple(cdsA))
@@ -287,6 +290,7 @@ def run_module_case(lean, rng, name, build, cycles, dis, with_orig=True, fuel=64
     real = []
     orig_vs_low = None
     prev = None
+    aligned = [cd.name for cd in f.clock_domains] == list(cds) and (nl is None or list(cdsA) == list(cds))
     for t in range(cycles):
         vals = stimulus(rng, inputs, rsts, prev, t)
         prev = vals
@@ -304,9 +308,13 @@ def run_module_case(lean, rng, name, build, cycles, dis, with_orig=True, fuel=64
                 if a != b:
                     orig_vs_low = dict(cycle=t, port=cap.ns.get_name(iosB[k]), original=a, lowered=b)
                     break
-            nl.tick(tuple(cdsA))
-        rl.tick(clks)
-        cyc.append("%d %s %s" % (len(clks), " ".join(str(ids.get(c)) for c in clks), " ".join(map(str, vals))))
+        # clock domains tick independently (every domain in ~2/3 of the instants) when there are several
+        tick = [j for j in range(len(clks)) if len(clks) == 1 or not aligned or rng.random() < 0.65]
+        if nl is not None and orig_vs_low is None:
+            nl.tick(tuple(cdsA[j] for j in tick) if aligned else tuple(cdsA))
+        tclks = [clks[j] for j in tick]
+        rl.tick(tclks)
+        cyc.append("%d %s %s" % (len(tclks), " ".join(str(ids.get(c)) for c in tclks), " ".join(map(str, vals))))
     # coverage of the repaired region of C01-signed-full-slice-dropped / C01-full-slice-dropped-negative-operand
     res.kept_full_slices = len(signed_full_slices(fA0)) if fA0 is not None else 0
     if orig_vs_low is not None:
@@ -464,7 +472,7 @@ def random_module_build(seed, maxw, tame=False):
         m, ios = L.random_module(rng, maxw=maxw, tame=tame)
         f = m.get_fragment()
         ios = sorted(ios, key=lambda s: s.duid)
-        return f, ios, ["sys"]
+        return f, ios, [cd.name for cd in f.clock_domains]
     return build
 
 
@@ -475,8 +483,14 @@ def l2_random(ctx, n_mod, cycles, dis):
     for k in range(n_mod):
         seed = rng.randrange(1 << 30)
         tame = k % 3 != 0
-        r = run_module_case(ctx.lean, rng, "randmod%d%s" % (k, "t" if tame else "w"),
-                            random_module_build(seed, rng.choice([3, 5, 9]), tame), cycles, dis)
+        mw = rng.choice([3, 5, 9, 9, 40 if k % 2 else 5])
+        try:
+            r = run_module_case(ctx.lean, rng, "randmod%d%s" % (k, "t" if tame else "w"),
+                                random_module_build(seed, mw, tame), cycles, dis)
+        except Exception as ex:      # a changed printer/simulator that crashes or never settles: reported, not fatal
+            traceback.print_exc()
+            dis.append(Dis("module-exception", module="randmod%d" % k, seed=seed, maxw=mw, tame=tame, error=repr(ex)[:300]))
+            continue
         tot["modules"] += 1
         if r.status.startswith("unsupported"):
             tot["unsupported"] += 1
@@ -609,6 +623,32 @@ def core_builders(tier):
             address=0, bus=csr_bus.Interface(data_width=dw, address_width=14), ordering=ordering)
     add("csr_bus.CSRBank/8/big", lambda: bank(8, "big"))
     add("csr_bus.CSRBank/32/little", lambda: bank(32, "little"))
+    # ---- parameter corners: non-power-of-two counts/ratios, words wider than 32/64 bits, less-used options -----
+    L40 = [("data", 40)]
+    add("stream._UpConverter/8->40", lambda: stream._UpConverter(8, 40, 5, False))
+    add("stream._DownConverter/72->8r", lambda: stream._DownConverter(72, 8, 9, True))
+    add("stream.Converter/8->56/valid_token", lambda: stream.Converter(8, 56, report_valid_token_count=True))
+    add("stream.Gearbox/7->3/msb", lambda: stream.Gearbox(7, 3, msb_first=True))
+    add("stream.Multiplexer/5/40", lambda: stream.Multiplexer(L40, 5))
+    add("stream.Demultiplexer/5", lambda: stream.Demultiplexer(L8, 5))
+    add("stream.Buffer/40/pipe_ready", lambda: stream.Buffer(L40, pipe_valid=True, pipe_ready=True))
+    add("stream.Shifter/33", lambda: stream.Shifter(33))
+    add("stream.Delay/5/40", lambda: stream.Delay(L40, 5))
+    add("Timer/64", lambda: Timer(width=64))
+    add("LedChaser/5", lambda: LedChaser(Signal(5), 1e3))
+    add("GPIOOut/40", lambda: GPIOOut(Signal(40)))
+    add("wishbone.Arbiter/3", lambda: wishbone.Arbiter([wishbone.Interface() for _ in range(3)], wishbone.Interface()))
+    add("wishbone.Decoder/3", lambda: wishbone.Decoder(
+        wishbone.Interface(), [((lambda k: (lambda a: a[8:] == k))(k), wishbone.Interface()) for k in range(3)]))
+    add("wishbone.DownConverter/64->32", lambda: wishbone.DownConverter(
+        wishbone.Interface(data_width=64, adr_width=29), wishbone.Interface(data_width=32, adr_width=30)))
+    add("wishbone.Timeout/5", lambda: wishbone.Timeout(wishbone.Interface(), 5))
+    add("PRBS7Generator/11", lambda: PRBS7Generator(11))
+    add("ECCEncoder/11", lambda: ECCEncoder(11))
+    add("packet.Arbiter/3", lambda: packet.Arbiter([stream.Endpoint(L8) for _ in range(3)], stream.Endpoint(L8)))
+    add("csr_bus.CSRBank/32/big/wide", lambda: csr_bus.CSRBank([
+        csr.CSRStorage(72, name="w72", reset=(0xa5 << 64) | 0xffffffff00000001), csr.CSRStatus(33, name="s33")],
+        address=0, bus=csr_bus.Interface(data_width=32, address_width=14), ordering="big"))
     if tier != "quick":
         add("stream._UpConverter/8->64", lambda: stream._UpConverter(8, 64, 8, False))
         add("stream.Gearbox/32->20", lambda: stream.Gearbox(32, 20))
@@ -745,6 +785,36 @@ def memory_builders(tier):
                 self.specials += q
                 self.adr2, self.dat_r2 = q.adr, q.dat_r
     from migen import Replicate, Mux
+
+    class MemDutN(Module):
+        """One memory, several ports.  ports: list of dicts(w=write capable, mode, gran, re, asyn, cd).  Only ONE
+        port is write capable (two writers hitting one word in one instant is a race in Verilog).  Every port's
+        address is driven through a clamp to < depth (non-power-of-two depths)."""
+        def __init__(self, width, depth, init, ports):
+            self.specials.mem = mem = Memory(width, depth, init=init)
+            for n, pd in enumerate(ports):
+                kw = dict(write_capable=pd.get("w", False), we_granularity=pd.get("gran", 0),
+                          clock_domain=pd.get("cd", "sys"))
+                if pd.get("asyn"):
+                    kw["async_read"] = True
+                else:
+                    kw.update(mode=pd.get("mode", WRITE_FIRST), has_re=pd.get("re", False))
+                p = mem.get_port(**kw)
+                self.specials += p
+                adr = Signal(len(p.adr))
+                self.comb += p.adr.eq(Mux(adr < depth, adr, depth - 1))
+                setattr(self, "adr%d" % n, adr)
+                setattr(self, "dat_r%d" % n, p.dat_r)
+                if pd.get("w"):
+                    setattr(self, "dat_w%d" % n, p.dat_w)
+                    if pd.get("full_we"):
+                        we1 = Signal()
+                        self.comb += p.we.eq(Replicate(we1, len(p.we)))
+                        setattr(self, "we%d" % n, we1)
+                    else:
+                        setattr(self, "we%d" % n, p.we)
+                if pd.get("re") and not pd.get("asyn"):
+                    setattr(self, "re%d" % n, p.re)
     B = []
     for mode, mname in ((WRITE_FIRST, "write-first"), (READ_FIRST, "read-first"), (NO_CHANGE, "no-change")):
         B.append(("Memory/%s/8x8" % mname, lambda mode=mode: MemDut(8, 8, mode, 0, False, False, [1, 2, 3])))
@@ -759,7 +829,39 @@ def memory_builders(tier):
     B.append(("Memory/write-first/4x3", lambda: MemDut(4, 3, WRITE_FIRST, 0, False, False, None, clamp=True)))
     B.append(("Memory/read-first/8x12/gran4", lambda: MemDut(8, 12, READ_FIRST, 4, False, False, None, clamp=True)))
     B.append(("Memory/async/5x7", lambda: MemDut(5, 7, WRITE_FIRST, 0, False, True, [1, 2, 3, 4, 5, 6, 7], clamp=True)))
+    # several ports on one clock, mixed modes, non-power-of-two depths, wide words, init files
+    WF, RF, NC = WRITE_FIRST, READ_FIRST, NO_CHANGE
+    B.append(("Memory/2port/wf-rw/gran8+rf-ro/re/16x8", lambda: MemDutN(16, 8, [0xbeef, 1, 2], [
+        dict(w=True, mode=WF, gran=8), dict(mode=RF, re=True)])))
+    B.append(("Memory/2port/rf-rw+wf-ro/8x6", lambda: MemDutN(8, 6, [1, 2, 3, 4, 5, 6], [
+        dict(w=True, mode=RF), dict(mode=WF)])))
+    B.append(("Memory/3port/nc-rw+async-ro+wf-ro/re/9x5", lambda: MemDutN(9, 5, [0x1ff, 0x100], [
+        dict(w=True, mode=NC, gran=0), dict(asyn=True), dict(mode=WF, re=True)])))
+    B.append(("Memory/2port/wf-ro+wf-rw/12x7/gran4", lambda: MemDutN(12, 7, None, [
+        dict(mode=WF), dict(w=True, mode=WF, gran=4)])))
+    B.append(("Memory/write-first/72x4/gran8/init", lambda: MemDutN(72, 4, [(0xa5 << 64) | 0x0123456789abcdef, (1 << 72) - 1, 7], [
+        dict(w=True, mode=WF, gran=8)])))
+    B.append(("Memory/read-first/64x3/init", lambda: MemDutN(64, 3, [0xffffffff00000001, 1 << 63], [
+        dict(w=True, mode=RF), dict(asyn=True)])))
+    B.append(("Memory/no-change/33x2/full-we", lambda: MemDutN(33, 2, [1 << 32], [dict(w=True, mode=NC, gran=11, full_we=True)])))
+    # two clock domains (clocks tick independently); explicit READ_FIRST ports are not rewritten by memory.py
+    B.append(("Memory/dualclock/rf-w@sys+rf-ro@b/8x8", lambda: MemDutN(8, 8, [3, 1, 4, 1, 5], [
+        dict(w=True, mode=RF, cd="sys"), dict(mode=RF, cd="b", re=True)])))
+    B.append(("Memory/dualclock/rf-w@sys+async-ro/10x6", lambda: MemDutN(10, 6, None, [
+        dict(w=True, mode=RF, cd="sys"), dict(mode=RF, cd="b"), dict(asyn=True)])))
     B.append(("stream.SyncFIFO/8x4", lambda: stream.SyncFIFO([("data", 8)], 4)))
+
+    class FifoNoReplace(Module):
+        """stream.SyncFIFO with Migen's `replace` input tied low: with a non-power-of-two depth `replace` at
+        produce = 0 addresses word `2^n - 1` ≥ depth (clamped by the simulator's Array, X in Verilog: outside the
+        property)."""
+        def __init__(self, layout, depth, **kw):
+            self.submodules.f = f = stream.SyncFIFO(layout, depth, **kw)
+            self.sink, self.source = f.sink, f.source
+            inner = f.fifo.fifo if hasattr(f.fifo, "fifo") else f.fifo      # SyncFIFOBuffered wraps a SyncFIFO
+            self.comb += inner.replace.eq(0)
+    B.append(("stream.SyncFIFO/8x5", lambda: FifoNoReplace([("data", 8)], 5)))
+    B.append(("stream.SyncFIFO/40x3/buffered", lambda: FifoNoReplace([("data", 40)], 3, buffered=True)))
     B.append(("stream.SyncFIFO/8x8/buffered", lambda: stream.SyncFIFO([("data", 8)], 8, buffered=True)))
     B.append(("wishbone.SRAM/64B", lambda: wishbone.SRAM(64, init=[0x11223344, 0x55667788])))
     B.append(("wishbone.SRAM/32B/ro", lambda: wishbone.SRAM(32, read_only=True, init=[1, 2, 3, 4])))
@@ -771,7 +873,7 @@ def memory_builders(tier):
 def run_memory_case(rng, name, mk, cycles, with_reset=False):
     """Returns (cycles run, failing-input dict or None, status)."""
     from migen.fhdl.tools import list_targets, list_special_ios
-    from netlist import Netlist
+    from c01lib import Netlist
     try:
         fA, iosA, cdsA = L.prepare(mk(), allow_memories=True)
         fB, iosB, cdsB = L.prepare(mk(), allow_memories=True)
@@ -794,8 +896,11 @@ def run_memory_case(rng, name, mk, cycles, with_reset=False):
     rsts = [cd.rst for cd in f.clock_domains if cd.rst is not None]
     in_idx = [k for k, s in enumerate(iosB) if s not in targets and not any(s is c for c in clks)]
     out_idx = [k for k, s in enumerate(iosB) if s in targets]
+    if [cd.name for cd in f.clock_domains] != list(cdsA):
+        return 0, None, "unsupported: clock domain order differs between the two builds"
     prev = None
     trace = []
+    ticks = []
     for t in range(cycles):
         vals = stimulus(rng, [iosB[k] for k in in_idx], rsts, prev, t)
         if not with_reset:
@@ -807,17 +912,20 @@ def run_memory_case(rng, name, mk, cycles, with_reset=False):
             pv.state[ids.get(iosB[k])] = v & ((1 << iosB[k].nbits) - 1)
         nl.settle()
         pv.settle()
+        tick = [j for j in range(len(clks)) if len(clks) == 1 or rng.random() < 0.6]
+        ticks.append(tick)
         for k in out_idx:
             a = nl.getu(iosA[k])
             b = pv.state[ids.get(iosB[k])]
             if a != b:
                 t0 = cap.text
                 return t, {"oracle": "golden-module (memory)", "module": name, "cycle": t,
+                           "clocks": cdsA, "ticking_clocks_per_cycle": ticks[-6:],
                            "port": cap.ns.get_name(iosB[k]), "simulator": a, "verilog": b,
                            "inputs": [cap.ns.get_name(iosB[j]) for j in in_idx], "trace": trace[-6:],
                            "verilog_text": t0[t0.index("// Specialized Logic"):][:2500]}, "ok"
-        nl.tick(tuple(cdsA))
-        pv.tick({ids.get(c) for c in clks})
+        nl.tick(tuple(cdsA[j] for j in tick))
+        pv.tick({ids.get(clks[j]) for j in tick})
     return cycles, None, "ok"
 
 
@@ -844,9 +952,20 @@ def memory_findings():
                 "asserting the domain reset restores the memory words and the read-port address/data registers in the "
                 "simulator (they are ordinary sync registers after MemoryToArray); the emitted memory logic has no reset",
                 bad is not None, bad and {k: bad[k] for k in ("cycle", "port", "simulator", "verilog", "trace")}))
+    # (b2) several clocks on one memory: memory.py rewrites EVERY port to READ_FIRST
+    MemDutN = B["Memory/2port/rf-rw+wf-ro/8x6"]().__class__
+    n, bad, st = run_memory_case(random.Random(3), "Memory/dualclock/wf-rw@sys+wf-ro@b/8x8",
+                                 lambda: MemDutN(8, 8, [3, 1, 4, 1, 5, 9, 2, 6], [
+                                     dict(w=True, mode=WRITE_FIRST, cd="sys"), dict(mode=WRITE_FIRST, cd="b")]), 300)
+    out.append(("C01-memory-multiclock-forced-read-first",
+                "a memory whose ports use different clocks gets every port rewritten to READ_FIRST by memory.py (data "
+                "register instead of the transparent address register): a WRITE_FIRST port reads `mem[adr_reg]` "
+                "combinationally in the simulator (new data after a write, init word 0 at power-up) and a registered, "
+                "uninitialised old value in the text",
+                bad is not None, bad and {k: bad[k] for k in ("cycle", "port", "simulator", "verilog", "trace")}))
     # (c) a top-level port that is a register with a non-zero reset value carries no initialiser in the text
     from migen import Module, Signal, ClockDomain
-    from netlist import Netlist
+    from c01lib import Netlist
 
     def build():
         m = Module()
@@ -878,6 +997,227 @@ def memory_findings():
     return out
 
 
+# ----------------------------------------------------------------------------------------------------------
+# Glue: convert() reached through Platform.get_verilog (ios taken from the constraint manager, sim special
+# overrides, IO naming from the back-trace), the way a build does
+# ----------------------------------------------------------------------------------------------------------
+
+def platform_glue_case(rng, cycles, regular_comb):
+    """A small design on a SimPlatform with requested pins, converted by `platform.get_verilog(fragment, ...)`
+    (verilator.py passes regular_comb=False); real simulator on the original vs golden reading of the text.
+    Returns (cycles, failing input or None)."""
+    from migen import Module, Signal, ClockDomain, If, Cat
+    from litex.build.generic_platform import Pins, Subsignal
+    from litex.build.sim.platform import SimPlatform
+    from c01lib import Netlist
+    io = [("sys_clk", 0, Pins(1)), ("sys_rst", 0, Pins(1)), ("user_led", 0, Pins(5)), ("user_btn", 0, Pins(3)),
+          ("bus", 0, Subsignal("dat", Pins(40)), Subsignal("stb", Pins(1)), Subsignal("ack", Pins(1)))]
+
+    def build():
+        plat = SimPlatform("SIM", io)
+        m = Module()
+        m.clock_domains.cd_sys = ClockDomain("sys")
+        clk, rst = plat.request("sys_clk"), plat.request("sys_rst")
+        led, btn, bus = plat.request("user_led"), plat.request("user_btn"), plat.request("bus")
+        m.comb += [m.cd_sys.clk.eq(clk), m.cd_sys.rst.eq(rst)]
+        cnt = Signal(40, reset=(1 << 39) | 5)
+        m.sync += [If(bus.stb, cnt.eq(cnt + Cat(btn, btn[0:2]))), bus.ack.eq(bus.stb & ~bus.ack)]
+        m.comb += [led.eq(cnt[35:40] ^ Cat(btn, btn[0:2])), bus.dat.eq(cnt)]
+        return plat, m.get_fragment(), dict(clk=clk, rst=rst, led=led, btn=btn, stb=bus.stb, ack=bus.ack, dat=bus.dat)
+    platA, fA, pA = build()
+    platB, fB, pB = build()
+    try:
+        cap = L.convert_capture(fB, (), via=lambda: platB.get_verilog(fB, name="sim", regular_comb=regular_comb))
+        sigs = L.module_signals(cap)
+        ids = SigIds()
+        for s_ in sigs:
+            ids.get(s_)
+        name_ids = {cap.ns.get_name(s_): ids.get(s_) for s_ in sigs}
+        mt = L.parse_module(cap.text, name_ids)
+        if mt.unsupported:
+            return 0, {"oracle": "platform-glue", "what": "text outside the readable subset: %s" % mt.unsupported[:2]}
+        pv = L.PyVSim(mt, name_ids)
+    except (L.ParseError, L.Unsupported, KeyError, IndexError, TypeError, AssertionError) as ex:
+        return 0, {"oracle": "platform-glue", "error": repr(ex)[:300],
+                   "what": "Platform.get_verilog on a small design fails or emits unreadable text"}
+    # the requested pins must be the module's ports, under their requested names
+    want = {"sys_clk", "sys_rst", "user_led", "user_btn", "bus_dat", "bus_stb", "bus_ack", "sim_trace"}   # sim_trace: SimPlatform's own pin
+    got = {n_ for n_ in mt.decls if mt.decls[n_]["kind"] in ("iw", "ow", "or", "io")}
+    if got != want:
+        return 0, {"oracle": "platform-glue", "ports": sorted(got), "expected": sorted(want),
+                   "what": "the ports of the generated top level are not the requested platform pins"}
+    nl = Netlist(fA, clocks=("sys",))
+    trace = []
+    for t in range(cycles):
+        vals = dict(btn=rng.randrange(8), stb=rng.randrange(2), rst=1 if t == 1 else 0)
+        trace.append(vals)
+        for k, v in vals.items():
+            nl.set(pA[k], v)
+            pv.state[ids.get(pB[k])] = v
+        nl.settle()
+        pv.settle()
+        for k in ("led", "ack", "dat"):
+            a, b = nl.getu(pA[k]), pv.state[ids.get(pB[k])]
+            if a != b:
+                return t, {"oracle": "platform-glue", "cycle": t, "port": k, "simulator": a, "verilog": b,
+                           "regular_comb": regular_comb, "trace": trace[-6:],
+                           "what": "design converted through SimPlatform.get_verilog: simulator and text differ"}
+        # the platform clock pin drives the domain clock through a comb assignment: tick both views of it
+        nl.tick(("sys",))
+        pv.tick({ids.get(cap.f.clock_domains["sys"].clk)})
+    return cycles, None
+
+
+# ----------------------------------------------------------------------------------------------------------
+# Instances: the text emitted by litex/gen/fhdl/instance.py against the Instance items (module name, instance
+# name, every parameter with its value, every port with its connection, order inputs/outputs/inouts)
+# ----------------------------------------------------------------------------------------------------------
+
+def instance_text_check(rng, n_inst):
+    """Returns (instances checked, first problem or None).  Port connections are read by the expression reader
+    and evaluated against the real Evaluator on random valuations; parameters are compared by value."""
+    import re
+    from migen import Module, Signal, Instance, Cat, Constant
+    checked = 0
+    for k in range(n_inst):
+        mw = rng.choice([3, 9, 40])
+        us = make_sigs(rng, 3, maxw=mw, p_signed=0.0, prefix="w")
+        ss = make_sigs(rng, 1, maxw=min(mw, 6), p_signed=1.0, prefix="t")
+        sigs = us + ss
+        outs = make_sigs(rng, 2, maxw=8, p_signed=0.0, prefix="o")
+        pad = Signal(rng.randint(1, 4), name_override="pad")
+        g = L.SafeGen(rng, us, ss)         # connections without intermediate-overflow sites
+        params = []
+        for j in range(rng.randint(0, 5)):
+            kind = rng.choice(["int", "const", "str", "float", "pre", "neg"])
+            nm = "P%d_%s" % (j, "x" * rng.randint(0, 6))
+            val = {"int": rng.randrange(1 << rng.choice([1, 8, 40])), "neg": -rng.randrange(1, 100),
+                   "const": Constant(rng.randrange(16), (rng.randint(4, 9), False)),
+                   "str": rng.choice(["TRUE", "a b", "RISING_EDGE", ""]), "float": rng.choice([1.5, 0.25, 100.0]),
+                   "pre": Instance.PreformattedParam("%d'h%x" % (12, rng.randrange(4096)))}[kind]
+            params.append((nm, kind, val))
+        ins = [("I%d_%s" % (j, "y" * rng.randint(0, 5)), g.top(rng.randint(1, 2))) for j in range(rng.randint(0, 3))]
+        onames = [("O%d" % j, o) for j, o in enumerate(outs[:rng.randint(0, 2)])]
+        ionames = [("IO0", pad)] if rng.random() < 0.4 else []
+        kw = {}
+        for nm, kind, val in params:
+            kw["p_" + nm] = val
+        for nm, e in ins:
+            kw["i_" + nm] = e
+        for nm, o in onames:
+            kw["o_" + nm] = o
+        for nm, o in ionames:
+            kw["io_" + nm] = o
+        directive = rng.choice([None, None, "syn_keep=1"])
+        iname = rng.choice([None, "u_foo"])
+        m = Module()
+        inst = Instance("FOO_%d" % k, name=iname or "FOO_%d" % k, synthesis_directive=directive, **kw) if iname else \
+            Instance("FOO_%d" % k, synthesis_directive=directive, **kw)
+        m.specials += inst
+        ios = set(sigs) | set(outs) | {pad}
+        try:
+            cap = L.convert_capture(m.get_fragment(), ios)
+        except Exception as ex:
+            return checked, {"oracle": "instance-text", "error": repr(ex)[:300], "what": "convert fails on an Instance"}
+        text = cap.text
+        body = text[text.index("// Specialized Logic"):text.index("endmodule")]
+        prob = _check_instance_text(body, cap, inst, "FOO_%d" % k, params, ins, onames, ionames, directive, sigs + outs + [pad], rng)
+        checked += 1
+        if prob is not None:
+            prob.update(oracle="instance-text", instance_text=body[body.index("FOO"):][:1500] if "FOO" in body else body[:600])
+            return checked, prob
+    return checked, None
+
+
+def _check_instance_text(body, cap, inst, of, params, ins, outs, inouts, directive, allsigs, rng):
+    import re
+    ns = cap.ns
+    iname = ns.get_name(inst)
+    # drop comment lines, keep the synthesis directive for a separate test
+    code = "\n".join(l for l in body.splitlines() if not l.strip().startswith("//"))
+    m = re.search(r"\b%s\s+(#\((?P<par>.*?)\n\)\s*)?%s\s*\((?P<ports>.*)\)\s*(?P<dir>/\* synthesis .*? \*/)?;" % (re.escape(of), re.escape(iname)),
+                  code, re.S)
+    if not m:
+        return {"what": "no instantiation `%s [#(…)] %s (…);` in the text" % (of, iname)}
+    if (directive is None) != (m.group("dir") is None) or (directive and m.group("dir") != "/* synthesis %s */" % directive):
+        return {"what": "synthesis directive %r not rendered as given: %r" % (directive, m.group("dir"))}
+
+    def conns(txt):
+        out = []
+        for line in (txt or "").split("\n"):
+            line = line.strip().rstrip(",")
+            if not line:
+                continue
+            mm = re.match(r"\.(\w+)\s*\((.*)\)$", line, re.S)
+            if not mm:
+                return None
+            out.append((mm.group(1), mm.group(2)))
+        return out
+    got_p = conns(m.group("par"))
+    got_io = conns(m.group("ports"))
+    if got_p is None or got_io is None:
+        return {"what": "a parameter/port line is not of the form .NAME (VALUE)"}
+    # named association: the order is immaterial, the set of names (no duplicates) is not
+    if sorted(n for n, _ in got_p) != sorted(n for n, _, _ in params):
+        return {"what": "parameter names", "text": [n for n, _ in got_p], "instance": [n for n, _, _ in params]}
+    got_p = sorted(got_p)
+    params = sorted(params, key=lambda x: x[0])
+    for (n, txt), (_, kind, val) in zip(got_p, params):
+        ok = True
+        if kind in ("int", "neg", "const"):
+            want = val.value if hasattr(val, "value") else val
+            try:
+                tree, _ = L.build_vtree(parse_vexpr(txt, {}))
+                L.v_size(tree)
+                W = max(tree.w, 64)
+                ok = L.v_assign_value(tree, {}, W) == want & ((1 << W) - 1)
+            except (L.ParseError, IndexError):
+                ok = False
+        elif kind == "str":
+            ok = txt == '"%s"' % val
+        elif kind == "float":
+            try:
+                ok = float(txt) == val
+            except ValueError:
+                ok = False
+        else:
+            ok = txt == str(val)
+        if not ok:
+            return {"what": "parameter %s (%s) has value %r in the instance, text %r" % (n, kind, getattr(val, "value", val), txt)}
+    want_io = [(n, e) for n, e in ins] + [(n, e) for n, e in outs] + [(n, e) for n, e in inouts]
+    if sorted(n for n, _ in got_io) != sorted(n for n, _ in want_io):
+        return {"what": "port names", "text": [n for n, _ in got_io], "instance": [n for n, _ in want_io]}
+    got_io = sorted(got_io)
+    want_io = sorted(want_io, key=lambda x: x[0])
+    names = {ns.get_name(s_): (i, s_.nbits, s_.signed) for i, s_ in enumerate(allsigs)}
+    ev = Evaluator([], {})
+    for (n, txt), (_, e) in zip(got_io, want_io):
+        try:
+            tree, _ = L.build_vtree(parse_vexpr(txt, names))
+            L.v_size(tree)
+        except (L.ParseError, KeyError) as ex:
+            return {"what": "connection of port %s unreadable: %r (%r)" % (n, txt, ex)}
+        from migen.fhdl.bitcontainer import value_bits_sign
+        from migen.fhdl.structure import Signal
+        nb = value_bits_sign(e)[0]
+        for _ in range(12):
+            env = [rng.choice([sig_range(s_)[0], sig_range(s_)[-1], rng.randrange(sig_range(s_)[0], sig_range(s_)[-1] + 1)]) for s_ in allsigs]
+            ev.signal_values = dict(zip(allsigs, env))
+            try:
+                real = ev.eval(e) & ((1 << nb) - 1)
+            except ValueError:
+                continue
+            benv = {i: v & ((1 << s_.nbits) - 1) for i, (s_, v) in enumerate(zip(allsigs, env))}
+            # a port connection is sized by the expression itself
+            if tree.w != nb and isinstance(e, Signal):
+                return {"what": "port %s: connection %r has %d bits, the signal %d" % (n, txt, tree.w, nb)}
+            gold = L.v_eval(tree, benv, max(tree.w, nb), tree.s) & ((1 << min(tree.w, nb)) - 1)
+            if gold != real & ((1 << min(tree.w, nb)) - 1):
+                return {"what": "port %s: connection %r evaluates to %d, the Instance expression to %d" % (n, txt, gold, real),
+                        "env": {ns.get_name(s_): v for s_, v in zip(allsigs, env)}}
+    return None
+
+
 def prbs_pause_probe():
     """C01-prbs-python-bool-invert: `PRBSRX(with_errors_saturation=False)` used `~with_errors_saturation` on a Python
     bool (= -1, always truthy after masking), so the simulator kept counting errors while `pause` was asserted and
@@ -885,7 +1225,7 @@ def prbs_pause_probe():
     golden reading of the emitted text, `pause` = 1, garbage input, PRBS7 checker selected: the two `errors`
     counters must agree (and stay 0)."""
     from litex.soc.cores.prbs import PRBSRX
-    from netlist import Netlist
+    from c01lib import Netlist
     rng = random.Random(11)
 
     def mk():
@@ -1136,7 +1476,7 @@ def run_witness(ctx, w):
             lean = dict(printeq=parts[0][0], storeF=int(parts[1][1]), assignV=int(parts[1][2]), fits=parts[1][3] == "1")
         return dict(simulator=sim, verilog=gold, lean=lean, text=text)
     # module: y.eq(expr) through the real convert; original design simulated by the real Simulator
-    from netlist import Netlist
+    from c01lib import Netlist
 
     def build():
         ss = [Signal((n, sg), name_override="s%d" % i) for i, (n, sg) in enumerate(w["sigs"])]
@@ -1243,7 +1583,19 @@ def correspond(ctx):
     ctx.cov.add_cases("independent golden reading (python) of the real text vs real Evaluator, safe domain",
                       n1 + n2, n1 + n2, exhaustive=False)
     ctx.log("golden reading: %d expression cases, %d module cycles, %.1fs" % (n1, n2, time.time() - t0))
-    for bad in (bad1, bad2):
+    n3, bad3 = instance_text_check(ctx.rng, 60 if quick else 600)
+    ctx.cov.add_cases("Instance text (instance.py) vs the Instance items: names, order, parameter values, port connections "
+                      "evaluated against the real Evaluator", n3, n3, exhaustive=False)
+    bad4 = None
+    n4 = 0
+    for rc in (True, False):
+        c4, b4 = platform_glue_case(ctx.rng, 60 if quick else 600, rc)
+        n4 += c4
+        bad4 = bad4 or b4
+    ctx.cov.add_cases("design converted through SimPlatform.get_verilog (platform ios, sim overrides, both comb emitters)",
+                      n4, n4, exhaustive=False)
+    ctx.log("instances: %d checked; platform glue: %d cycles" % (n3, n4))
+    for bad in (bad1, bad2, bad3, bad4):
         if bad is not None:
             dis.append(Dis("golden-oracle", **bad))
     ctx.rule = ("L1: one case = one (expression, valuation) evaluated by the real Evaluator, Lean evalF and Lean evalV "
@@ -1264,12 +1616,13 @@ def oracle_expressions(rng, n_expr, log=None):
     Evaluator.  Returns (cases evaluated, first failing input or None)."""
     n = 0
     for k in range(n_expr):
-        us = make_sigs(rng, rng.randint(2, 3), maxw=rng.choice([3, 5, 8]), p_signed=0.0, prefix="u")
-        ss = make_sigs(rng, rng.randint(0, 2), maxw=rng.choice([3, 5]), p_signed=1.0, prefix="t")
+        wide = k % 8 == 7
+        us = make_sigs(rng, rng.randint(2, 3), maxw=rng.choice([33, 40, 65]) if wide else rng.choice([3, 5, 8]), p_signed=0.0, prefix="u")
+        ss = make_sigs(rng, rng.randint(0, 2), maxw=rng.choice([34, 64]) if wide else rng.choice([3, 5]), p_signed=1.0, prefix="t")
         sigs = us + ss
         g = L.SafeGen(rng, us, ss)
         e = g.top(rng.randint(1, 3))
-        if len(e) > 40:
+        if len(e) > (400 if wide else 40):
             continue
         ids = SigIds()
         for s in sigs:
@@ -1283,7 +1636,7 @@ def oracle_expressions(rng, n_expr, log=None):
             return n, {"oracle": "golden-reading", "text": None, "error": repr(ex)}
         used = used_signals(e)
         envs, _ = expr_envs(rng, sigs, used, max_exh_bits=9, nrand=40)
-        lw = rng.choice([1, 3, 8, 12, 20])
+        lw = rng.choice([33, 64, 100]) if wide else rng.choice([1, 3, 8, 12, 20])
         ev = Evaluator([], {})
         for env in envs:
             ev.signal_values = {s: v for s, v in zip(sigs, env)}
@@ -1304,29 +1657,45 @@ def oracle_expressions(rng, n_expr, log=None):
 
 
 def safe_module(rng, maxw=6):
-    """Unsigned, tame module: every site fits statically, so text and simulator must agree on every cycle."""
+    """Tame module: every site fits statically, so text and simulator must agree on every cycle.  Unsigned
+    registers/comb signals (some wider than 32/64 bits), optional signed inputs, one or two clock domains."""
     from migen import Module, ClockDomain, Signal
     m = Module()
     m.clock_domains.cd_sys = ClockDomain("sys")
+    doms = ["sys"]
+    if rng.random() < 0.4:
+        m.clock_domains.cd_b = ClockDomain("b")
+        doms.append("b")
+    if rng.random() < 0.15:
+        maxw = rng.choice([33, 40, 65])
     ins = make_sigs(rng, rng.randint(2, 3), maxw=maxw, prefix="i", p_signed=0.0)
+    sins = make_sigs(rng, rng.randint(1, 2), maxw=min(maxw, 6), prefix="t", p_signed=1.0) if rng.random() < 0.5 else []
     regs = []
-    for k in range(rng.randint(1, 3)):
+    for k in range(rng.randint(1, 4)):
         w = rng.randint(1, maxw)
         regs.append(Signal(w, name_override="r%d" % k, reset=rng.choice([0, 1, rng.randrange(1 << w)])))
     combs = []
     readable = ins + regs
     for k in range(rng.randint(1, 2)):
         c = Signal(rng.randint(1, maxw), name_override="c%d" % k)
-        g = L.SafeGen(rng, list(readable), [], complex_slices=True)
+        g = L.SafeGen(rng, list(readable), list(sins), complex_slices=True)
         sg = L.StmtGen(rng, SafeAdapter(g))
         m.comb += sg.stmts([c], rng.randint(0, 2))
         combs.append(c)
         readable = readable + [c]
-    g = L.SafeGen(rng, list(readable), [], complex_slices=True)
+    g = L.SafeGen(rng, list(readable), list(sins), complex_slices=True)
     sg = L.StmtGen(rng, SafeAdapter(g))
-    m.sync += sg.stmts(regs, rng.randint(1, 2))
+    # every register is driven from exactly one clock domain
+    dom_of = [rng.choice(doms) for _ in regs]
+    for d in doms:
+        rs = [r_ for r_, dn in zip(regs, dom_of) if dn == d]
+        if rs:
+            getattr(m.sync, d).__iadd__(sg.stmts(rs, rng.randint(1, 2)))
     # registers (`output reg` ports carry their `= reset` initialiser) and comb signals as ports
-    ios = set(ins) | set(combs) | set(regs) | {m.cd_sys.clk, m.cd_sys.rst}
+    ios = set(ins) | set(sins) | set(combs) | set(regs)
+    for d in doms:
+        cd = getattr(m, "cd_" + d)
+        ios |= {cd.clk, cd.rst}
     return m, ios
 
 
@@ -1347,72 +1716,124 @@ class SafeAdapter:
         return self.g.atom()
 
     def case_test(self):
-        """Test of a Case: an atom, or `~atom` (unbounded value negative: the simulator truncates the test to its
-        declared width, Verilog evaluates it in that width — the keys StmtGen draws are narrower)."""
+        """Test of a Case: an atom, `~atom` (unbounded value negative: the simulator truncates the test to its
+        declared width, Verilog evaluates it in that width — the keys are narrower), or a signed signal."""
+        r = self.g.rng
+        if self.g.s and r.random() < 0.25:
+            return r.choice(self.g.s)
         a = self.g.atom()
-        if self.g.rng.random() < 0.4:
+        if r.random() < 0.4:
             from migen.fhdl.structure import _Operator
             return _Operator("~", [a])
         return a
 
+    def case_keys(self, test):
+        """Keys the test can take (a key outside the test's range never matches in the simulator but its bit
+        pattern may in Verilog: outside the property); negative keys for signed tests."""
+        from migen.fhdl.bitcontainer import value_bits_sign
+        r = self.g.rng
+        n, sg = value_bits_sign(test)
+        if sg:
+            lo, hi = max(-(1 << (n - 1)), -8), min((1 << (n - 1)) - 1, 7)
+        else:
+            lo, hi = 0, (1 << min(n, 4)) - 1
+        pool = list(range(lo, hi + 1))
+        return r.sample(pool, k=min(r.randint(1, 4), len(pool)))
+
+    def array_key(self):
+        return self.g.array_key()
+
+
+def run_safe_module(seed, cycles, rng=None, trace=None, ticks=None):
+    """One safe module (deterministic in `seed`): the real simulator on the ORIGINAL design vs the golden reading
+    (PyVSim) of the text the real convert emitted.  Every 4th seed uses the simulation-flavoured comb emitter
+    (`convert(regular_comb=False)`, what the LiteX sim platform asks for).  Clock domains tick independently.
+    Returns (cycles run, failing input or None, skipped: bool)."""
+    from migen.fhdl.tools import list_targets
+    from c01lib import Netlist
+    kw = {"regular_comb": False} if seed % 4 == 3 else {}
+
+    def build():
+        r = random.Random(seed)
+        m, ios = safe_module(r)
+        f = m.get_fragment()
+        return f, sorted(ios, key=lambda s: s.duid), [cd.name for cd in f.clock_domains]
+    fA, iosA, cdsA = build()
+    fB, iosB, cdsB = build()
+    try:
+        cap = L.convert_capture(fB, iosB, **kw)
+        ids, sigs, groups, secs = L.ser_module(cap)
+        name_ids = {cap.ns.get_name(s): ids.get(s) for s in sigs}
+        mt = L.parse_module(cap.text, name_ids)
+        if mt.unsupported:
+            return 0, None, True
+        pv = L.PyVSim(mt, name_ids)
+    except (L.ParseError, L.Unsupported, KeyError, IndexError, TypeError) as ex:
+        return 0, {"oracle": "golden-module", "error": repr(ex), "seed": seed,
+                   "what": "the text emitted for a safe module cannot be read"}, False
+    nl = Netlist(fA, clocks=tuple(cdsA))
+    targets = list_targets(cap.f)
+    cds = [cd.name for cd in cap.f.clock_domains]
+    clks = [cd.clk for cd in cap.f.clock_domains]
+    in_idx = [j for j, s in enumerate(iosB) if s not in targets and not any(s is c for c in clks)]
+    out_idx = [j for j, s in enumerate(iosB) if s in targets]
+    rsts = [cd.rst for cd in cap.f.clock_domains if cd.rst is not None]
+    replaying = trace is not None
+    trace = trace if replaying else []
+    ticks = ticks if replaying else []
+    prev = None
+    n = 0
+    for t in range(len(trace) if replaying else cycles):
+        if replaying:
+            vals, tick = trace[t], ticks[t]
+        else:
+            vals = stimulus(rng, [iosB[j] for j in in_idx], rsts, prev, t)
+            tick = [d for d in cds if len(cds) == 1 or rng.random() < 0.65]
+            trace.append(vals)
+            ticks.append(tick)
+        prev = vals
+        for j, v in zip(in_idx, vals):
+            nl.set(iosA[j], v)
+            pv.state[ids.get(iosB[j])] = v & ((1 << iosB[j].nbits) - 1)
+        nl.settle()
+        pv.settle()
+        n += 1
+        for j in out_idx:
+            a = nl.getu(iosA[j])
+            b = pv.state[ids.get(iosB[j])]
+            if a != b:
+                t0 = cap.text
+                return n, {"oracle": "golden-module", "seed": seed, "cycle": t, "port": cap.ns.get_name(iosB[j]),
+                           "replay": {"kind": "safe-module", "seed": seed, "trace": trace, "ticks": ticks},
+                           "simulator": a, "verilog": b, "convert_options": kw,
+                           "inputs": [cap.ns.get_name(iosB[j2]) for j2 in in_idx], "trace": trace,
+                           "ticking_domains_per_cycle": ticks,
+                           "verilog_text": t0[t0.index("module"):][:3000],
+                           "what": "the real simulator on the design and the IEEE-1364 reading of the emitted "
+                                   "text differ on a port (no intermediate-overflow site in this module)"}, False
+        nl.tick(tuple(tick))
+        pv.tick({ids.get(c) for c, d in zip(clks, cds) if d in tick})
+    return n, None, False
+
 
 def oracle_modules(rng, n_mod, cycles):
-    """Safe-domain modules: the real simulator on the ORIGINAL design vs the golden reading (PyVSim) of the text
-    the real convert emitted, ports and registers, every cycle."""
-    from migen.fhdl.tools import list_targets
-    from netlist import Netlist
+    """Safe-domain modules, see run_safe_module.  Returns (cycles, first failing input or None)."""
     n = 0
+    skipped = 0
     for k in range(n_mod):
         seed = rng.randrange(1 << 30)
-
-        def build():
-            r = random.Random(seed)
-            m, ios = safe_module(r)
-            return m.get_fragment(), sorted(ios, key=lambda s: s.duid)
-        fA, iosA = build()
-        fB, iosB = build()
         try:
-            cap = L.convert_capture(fB, iosB)
-            ids, sigs, groups, secs = L.ser_module(cap)
-            name_ids = {cap.ns.get_name(s): ids.get(s) for s in sigs}
-            mt = L.parse_module(cap.text, name_ids)
-            if mt.unsupported:
-                continue
-            pv = L.PyVSim(mt, name_ids)
-        except (L.ParseError, L.Unsupported, KeyError, IndexError) as ex:
-            return n, {"oracle": "golden-module", "error": repr(ex), "seed": seed}
-        nl = Netlist(fA, clocks=("sys",))
-        targets = list_targets(cap.f)
-        clks = [cd.clk for cd in cap.f.clock_domains]
-        in_idx = [j for j, s in enumerate(iosB) if s not in targets and not any(s is c for c in clks)]
-        out_idx = [j for j, s in enumerate(iosB) if s in targets]
-        rsts = [cd.rst for cd in cap.f.clock_domains if cd.rst is not None]
-        trace = []
-        prev = None
-        for t in range(cycles):
-            vals = stimulus(rng, [iosB[j] for j in in_idx], rsts, prev, t)
-            prev = vals
-            trace.append(vals)
-            for j, v in zip(in_idx, vals):
-                nl.set(iosA[j], v)
-                pv.state[ids.get(iosB[j])] = v & ((1 << iosB[j].nbits) - 1)
-            nl.settle()
-            pv.settle()
-            n += 1
-            for j in out_idx:
-                a = nl.getu(iosA[j])
-                b = pv.state[ids.get(iosB[j])]
-                if a != b:
-                    t0 = cap.text
-                    return n, {"oracle": "golden-module", "seed": seed, "cycle": t, "port": cap.ns.get_name(iosB[j]),
-                               "replay": {"kind": "safe-module", "seed": seed, "trace": trace},
-                               "simulator": a, "verilog": b,
-                               "inputs": [cap.ns.get_name(iosB[j2]) for j2 in in_idx], "trace": trace,
-                               "verilog_text": t0[t0.index("module"):][:3000],
-                               "what": "the real simulator on the design and the IEEE-1364 reading of the emitted "
-                                       "text differ on a port (no intermediate-overflow site in this module)"}
-            nl.tick(("sys",))
-            pv.tick({ids.get(c) for c in clks})
+            c, bad, skip = run_safe_module(seed, cycles, rng)
+        except Exception as ex:      # a changed printer/simulator that crashes or never settles on a safe module
+            return n, {"oracle": "golden-module", "seed": seed, "error": repr(ex)[:300],
+                       "what": "exception while converting / simulating a safe module (seed reproduces it)"}
+        n += c
+        skipped += 1 if skip else 0
+        if bad is not None:
+            return n, bad
+    if n_mod >= 20 and skipped * 4 > n_mod:
+        return n, {"oracle": "golden-module", "what": "%d of %d safe modules produce text outside the readable subset"
+                   % (skipped, n_mod)}
     return n, None
 
 
@@ -1421,7 +1842,7 @@ def oracle_core(rng, name, mk, cycles=600):
     convert emitted, ports, every cycle.  (Not part of `correspond`: cores with a listed, reachable intermediate-
     overflow site diverge legitimately; used by `search` to turn a NEW site into a concrete failing input.)"""
     from migen.fhdl.tools import list_targets, list_special_ios
-    from netlist import Netlist
+    from c01lib import Netlist
     fA, iosA, cdsA = L.prepare(mk())
     fB, iosB, cdsB = L.prepare(mk())
     cap = L.convert_capture(fB, iosB)
@@ -1548,38 +1969,12 @@ def replay(ctx, payload):
         print("simulator stores %s, Verilog text %r stores %s" % (r["simulator"], r["text"], r["verilog"]))
         return 1 if r["simulator"] != r["verilog"] else 0
     if rp["kind"] == "safe-module":
-        from netlist import Netlist
-        from migen.fhdl.tools import list_targets
-        seed = rp["seed"]
-
-        def build():
-            r = random.Random(seed)
-            m, ios = safe_module(r)
-            return m.get_fragment(), sorted(ios, key=lambda s: s.duid)
-        fA, iosA = build()
-        fB, iosB = build()
-        cap = L.convert_capture(fB, iosB)
-        ids, sigs, groups, secs = L.ser_module(cap)
-        name_ids = {cap.ns.get_name(s): ids.get(s) for s in sigs}
-        pv = L.PyVSim(L.parse_module(cap.text, name_ids), name_ids)
-        nl = Netlist(fA, clocks=("sys",))
-        targets = list_targets(cap.f)
-        clks = [cd.clk for cd in cap.f.clock_domains]
-        in_idx = [j for j, s in enumerate(iosB) if s not in targets and not any(s is c for c in clks)]
-        out_idx = [j for j, s in enumerate(iosB) if s in targets]
-        for t, vals in enumerate(rp["trace"]):
-            for j, v in zip(in_idx, vals):
-                nl.set(iosA[j], v)
-                pv.state[ids.get(iosB[j])] = v & ((1 << iosB[j].nbits) - 1)
-            nl.settle()
-            pv.settle()
-            for j in out_idx:
-                a, b = nl.getu(iosA[j]), pv.state[ids.get(iosB[j])]
-                if a != b:
-                    print("cycle %d port %s: simulator %d, verilog %d" % (t, cap.ns.get_name(iosB[j]), a, b))
-                    return 1
-            nl.tick(("sys",))
-            pv.tick({ids.get(c) for c in clks})
+        n, bad, skip = run_safe_module(rp["seed"], 0, None, rp["trace"], rp.get("ticks") or [["sys"]] * len(rp["trace"]))
+        if bad is not None:
+            print("cycle %s port %s: simulator %s, verilog %s" % (bad.get("cycle"), bad.get("port"), bad.get("simulator"),
+                                                               bad.get("verilog")))
+            return 1
         print("trace replayed without divergence")
         return 0
+    return 0
     return 0
